@@ -17,6 +17,8 @@ CM_LAYOUT_TERMS = "WSL: /\\s+/;\nLineComment: /\\/\\/.*/;\nNotComment: /((\\*[^\
 CUSTOM_WS = [(" ,-;", "[ ,\\-;]+", [("one", "str", "1"), ("dot", "str", "."), ("a", "str", "a")]),
              (" -+\n", "[ \\-+\\n]+", [("bang", "str", "!"), ("star", "str", "*"), ("a", "str", "a")]),
              ("^ ", "[\\^ ]+", [("a", "str", "a"), ("b", "str", "b"), ("c", "str", "c")])]
+# characters that LOOK like whitespace (str.isspace / regex \\s) but are not in the default ws parameter: not layout, both kinds of parser must stop at them
+JUNK = ["\x0c", "\x0b", "\xa0", "\x85", "\u2028", "\x1f", "\u3000"]
 EXPR = {"prods": [("S", ("S", "a", "S")), ("S", ("b", "S", "c")), ("S", ("b",)), ("S", ("c", "c"))], "terms": gen.PLAIN_TERMS}
 
 
@@ -137,12 +139,23 @@ def worker(job):
                 continue
             seen.add(w)
             none = {"kind": "none", "res": "[]", "full": "[]", "cls": "", "pos": -1}
-            v = {"text": w, "tokstart": starts, "endpos": end, "wsonly": all(set(f) <= set(ws if ws is not None else " \t\n\r") for f in fl),
+            v = {"text": w, "tokstart": starts, "endpos": end, "junk": False, "wsonly": all(set(f) <= set(ws if ws is not None else " \t\n\r") for f in fl),
                  "lr": _run(real, lr, w, False) if lr else none, "glr": _run(real, glr, w, True),
                  "lrL": _run(real, lrL, w, False) if lrL else none, "glrL": _run(real, glrL, w, True) if glrL else none}
             variants.append(v)
             if len(variants) >= job["nvar"]:
                 break
+        if not comments:
+            # not layout: a whitespace-like character outside ws before, between or after the tokens (ws parameter vs LAYOUT rule must agree on the error)
+            for _ in range(2):
+                fl = [rng.choice(["", " "]) for _ in range(len(toks) + 1)]
+                k = rng.randrange(len(fl))
+                fl[k] = rng.choice(["", " "]) + rng.choice(JUNK) + rng.choice(["", " ", "\n"])
+                w, starts, end = render(toks, fl)
+                none = {"kind": "none", "res": "[]", "full": "[]", "cls": "", "pos": -1}
+                variants.append({"text": w, "tokstart": starts, "endpos": end, "wsonly": False, "junk": True,
+                                 "lr": _run(real, lr, w, False) if lr else none, "glr": _run(real, glr, w, True),
+                                 "lrL": _run(real, lrL, w, False) if lrL else none, "glrL": _run(real, glrL, w, True) if glrL else none})
         out.append({"name": "%s %s @ %s" % (gen.gname(g), "[LAYOUT with comments]" if comments else ("[ws=%r vs LAYOUT rule]" % ws if ws is not None else "[ws vs LAYOUT rule]"), " ".join(toks)), "origin": job["origin"],
                     "pair": (not comments) and lrL is not None and glrL is not None and lr is not None, "comments": comments, "variants": variants})
     return out
